@@ -76,6 +76,8 @@ TINY = {
         ('RotatedPlanar3DCode', (2, 2, 1)), ('Color666PlanarCode', (1, 1)),
         ('RotatedPlanar2DCode', (2, 3))],
     'UnionFindDecoder': [('Toric2DCode', (2, 2))],
+    'MemoryBeliefPropagationDecoder': [('Planar2DCode', (2, 2)),
+                                       ('RotatedPlanar2DCode', (2, 3))],
 }
 
 LARGER = {
@@ -97,8 +99,9 @@ LARGER = {
     'RotatedSweepMatchDecoder': [('RotatedPlanar3DCode', (2, 2, 2)),
                                  ('RotatedPlanar3DCode', (3, 3, 3)),
                                  ('RotatedToric3DCode', (2, 2, 2))],
-    'MemoryBeliefPropagationDecoder': [('RotatedPlanar2DCode', (2, 3)),
-                                       ('Planar2DCode', (2, 2))],
+    'MemoryBeliefPropagationDecoder': [('RotatedPlanar2DCode', (3, 3)),
+                                       ('Toric2DCode', (3, 3)),
+                                       ('Planar2DCode', (2, 3))],
 }
 
 
@@ -149,7 +152,7 @@ def plan(tier, seed):
                        'RotatedSweepMatchDecoder': 120}.get(dname, 2)
                 n_h = nh
                 if dname in ('MemoryBeliefPropagationDecoder',):
-                    n_h = max(3, nh // 12)
+                    n_h = max(10, nh // 4)
                 if dname in ('RotatedSweepMatchDecoder', 'SweepMatchDecoder',
                              'XCubeMatchingDecoder', 'UnionFindDecoder'):
                     n_h = max(4, nh // 3)
@@ -174,7 +177,7 @@ def make(task):
                          deformation_kwargs=dict(ndk) if ndk else None)
     kw = dict(opts)
     if task['decoder'] == 'MemoryBeliefPropagationDecoder':
-        kw['max_bp_iter'] = 2
+        kw['max_bp_iter'] = 4
     with contextlib.redirect_stdout(io.StringIO()):
         dec = decoder_classes()[task['decoder']](code, em, task['rate'], **kw)
     return code, em, dec
@@ -385,6 +388,7 @@ def run_histories(task, out):
         L = int(rng.integers(1, 21)) if task['decoder'] not in (
             'MemoryBeliefPropagationDecoder', 'RotatedSweepMatchDecoder') \
             else int(rng.integers(1, 5))
+        dts = ['uint8', 'int64', 'int32', 'uint8', 'int64']
         hist = [random_syndrome(rng, code, H, n, str(rng.choice(kinds)))
                 for _ in range(L)]
         last_kind = str(rng.choice(kinds + ['zero']))
@@ -394,8 +398,9 @@ def run_histories(task, out):
                 # one object for the whole run of histories is the default;
                 # every third history starts from a new object
                 mon = Monitored(task, out)
-            for s_int in hist:
-                mon.decode(gf2.unpack(s_int, m).astype('uint8'), 'history')
+            for hi, s_int in enumerate(hist):
+                mon.decode(gf2.unpack(s_int, m).astype(dts[(h + hi) % 5]),
+                           'history')
             if is_sweep:
                 # (i) without restore: validity is history independent
                 s_arr = gf2.unpack(s_last, m).astype('uint8')
@@ -418,7 +423,7 @@ def run_histories(task, out):
                 compare(task, out, got, ref, f'len={L},last={last_kind}',
                         s_last, m, True)
             else:
-                got = mon.decode(gf2.unpack(s_last, m).astype('uint8'),
+                got = mon.decode(gf2.unpack(s_last, m).astype(dts[h % 5]),
                                  'last')
                 ref = fresh.get(s_last, m)
                 compare(task, out, got, ref, f'len={L},last={last_kind}',
